@@ -415,6 +415,7 @@ func profileFor0(prop string, r *sim.Rand, i int, quick bool) sim.Profile {
 		p.ReadsPct, p.HostilePct, p.ProbePct = 45, 40, 30
 		p.MaxTx = 8
 		p.W["upgrade"] = 6
+		p.RestartPct = 4
 		p.SecondDenom = i%4 == 2
 		p.Whale = i%8 == 4
 		if i%4 == 3 {
@@ -424,6 +425,7 @@ func profileFor0(prop string, r *sim.Rand, i int, quick bool) sim.Profile {
 	case "C14":
 		p.QueryHeavy = true
 		p.ReadsPct = 70
+		p.RestartPct = 12
 		p.Blocks = 60
 		if !quick {
 			p.Blocks = 200
